@@ -30,12 +30,20 @@ import sympy as sp
 import ampform.dynamics as dyn
 s, m0, g0, m1, m2 = sp.symbols("s m0 Gamma0 m1 m2", nonnegative=True)
 xg, xp = sp.Symbol("x"), sp.Symbol("x", positive=True)
+
+
+def _mk(k):
+    return lambda s_, a, b: k * s_ + a + b  # two closures of one factory: same qualified name, different behaviour
+
+
 POOL = {
     "width[PhaseSpaceFactor]": dyn.EnergyDependentWidth(s, m0, g0, m1, m2, 1, 1, dyn.PhaseSpaceFactor),
     "width[PhaseSpaceFactorSWave]": dyn.EnergyDependentWidth(s, m0, g0, m1, m2, 1, 1, dyn.PhaseSpaceFactorSWave),
     "Abs(x) generic": sp.Abs(xg, evaluate=False) + dyn.BreakupMomentumSquared(s, m1, m2),
     "Abs(x) positive": sp.Abs(xp, evaluate=False) + dyn.BreakupMomentumSquared(s, m1, m2),
     "control": dyn.BlattWeisskopfSquared(s, 2),
+    "width[closure k=1]": dyn.EnergyDependentWidth(s, m0, g0, m1, m2, 1, 1, _mk(1)),
+    "width[closure k=2]": dyn.EnergyDependentWidth(s, m0, g0, m1, m2, 1, 1, _mk(2)),
 }
 """
 
@@ -90,7 +98,7 @@ def run_py(src, mode, *args):
 DONE, CRASHED = -1, -2
 
 
-def bmc(prog, table, *, n_procs, n_calls, crash, want, T):
+def bmc(prog, table, *, n_procs, n_calls, crash, want, T, allowed=None):
     """Return (status, history|None).  want in {"value", "raise"}: search a history violating that clause."""
     ops = prog.ops
     nE = len(table["names"])
@@ -105,6 +113,8 @@ def bmc(prog, table, *, n_procs, n_calls, crash, want, T):
     for row in choice:
         for v in row:
             s.add(v >= 0, v < nE)
+            if allowed is not None:
+                s.add(z3.Or(*[v == a for a in allowed]))
     who = [I(f"who_{t}") for t in range(T)]
     crash_at = I("crash_at")  # time at which one process crashes (instead of moving), or -1
     s.add(crash_at >= -1, crash_at < T)
@@ -288,7 +298,7 @@ def worker(config, tier, seed):
         import time
 
         t0 = time.time()
-        status, cex = bmc(prog, table, n_procs=config["procs"], n_calls=config["calls"], crash=config["crash"], want=want, T=config["T"])
+        status, cex = bmc(prog, table, n_procs=config["procs"], n_calls=config["calls"], crash=config["crash"], want=want, T=config["T"], allowed=config.get("pool"))
         r = Result(name=f"no history violates '{want}'", kind="identity", status=status, seconds=time.time() - t0, config=config["name"])
         if status == "sat":
             scratch = tempfile.mkdtemp(prefix="c16_", dir="/tmp")
@@ -314,7 +324,8 @@ def configs(tier):
         for procs, crash in ((1, False), (1, True), (2, False), (2, True)):
             calls = 3 if procs == 1 else (1 if tier == "quick" else 2)
             T = 40 if procs == 1 else (26 if tier == "quick" else 46)  # >= procs * calls * longest path + 1 (asserted at run time)
-            out.append({"name": f"{mode}|procs={procs}|crash={crash}|calls={calls}", "mode": mode, "procs": procs, "crash": crash, "calls": calls, "T": T, "config_timeout": 900})
+            out.append({"name": f"{mode}|procs={procs}|crash={crash}|calls={calls}", "mode": mode, "procs": procs, "crash": crash, "calls": calls, "T": T, "config_timeout": 900,
+                        "pool": None if procs == 1 else ([0, 1, 4] if tier == "quick" else [0, 1, 4, 5, 6])})
     return out
 
 
@@ -330,7 +341,7 @@ def main():
         level="model_checking",
         functions=[perform_cached_doit, _cache.get_readable_hash, _cache._to_bytes, _cache._get_python_hash_seed],
         bounds={"calls": "<= 3 (one process, crash = the program is started again) / 1 per process quick, 2 thorough (two processes)", "crashes": "<= 1, after any statement", "processes": "<= 2, statement-level interleaving",
-                "pool": "5 expressions (two str-colliding pairs + control)", "seed modes": list(MODES), "unrolling": "40/44 steps; the check asserts that every bounded history fits (calls * program length <= T)"},  # fmt: skip
+                "pool": "7 expressions (three str-colliding pairs incl. two closures of one factory + control); 5 of them with two processes", "seed modes": list(MODES), "unrolling": "40/44 steps; the check asserts that every bounded history fits (calls * program length <= T)"},  # fmt: skip
         assumptions=[
             "environment stubs: open(...,'wb') truncates -> partial; pickle.dump -> complete(value); pickle.load on a partial file raises; os.replace is atomic; mkdir/logging have no effect",
             "the key of an expression is what the real get_readable_hash returns in a fresh process under the seed mode (computed at check time)",
